@@ -35,6 +35,9 @@ T = {
  "C20": ("generated-program differential testing (random well-typed C++ expression programs vs explicit C calls, tree-level shrinking)",
          "Generated programs: a generator emits translation units of random well-typed expression trees over mpz_class/mpq_class/mpf_class and built-in operands (assignment targets occurring inside the tree, compound assignments, comparisons, named functions, conversions, stream I/O) together with the reference evaluation of every node into its own temporary with the documented C function; programs are compiled against the tree's mpirxx.h and cxx/*.cc (ASan build) and run on run-time value tuples; any mismatch is shrunk at tree level to a one-function replay program. Exploration over programs x inputs with a differential oracle taken from the manual.",
          "DESIGN.md section 5 C20 and cxxgen/README.md"),
+ "C14": ("differential testing of every assembly kernel against the portable C routine + the property battery re-run against builds with each tuning table / configure option",
+         "Three generated-input layers: (1) all 351 assembly files under mpn/x86_64/** are assembled standalone and every exported entry point is compared bitwise (outputs, return value, guard limbs) with the portable C routine of the same name built from the tree, with tests/refmpn.c and with an independent __int128 restatement, on generated lengths/alignments/overlaps/limb styles; (2) the numeric battery (C01 C02 C03 C06 C07 C08 C09 C10 check functions, refint oracle) runs against builds of the tree with the shipped gmp-mparam.h tables (3 per quick run chosen by seed, all 20 in thorough); (3) the same battery runs against real configure runs (--enable-fat, --enable-alloca=debug --enable-assert; thorough adds malloc-reentrant, alloca and one build per CPU name) and the fat build's dispatch table is checked against the configure.ac path of the host CPU. Exploration over configurations x inputs.",
+         "DESIGN.md section 5 C14 and props/C14/README.md"),
 }
 built = [i for i in ids if i in T and (os.path.exists(os.path.join(ROOT, "props", i + ".cc")) or os.path.exists(os.path.join(ROOT, "props", i + "_run.py")))]
 checks = []
